@@ -48,6 +48,9 @@ func provenBelow(t *Term, m *big.Int) bool {
 		return true
 	}
 	atoms := t.PredAtoms()
+	if exclusiveSelect(t, m) {
+		return true
+	}
 	if len(atoms) == 0 || len(atoms) > 8 {
 		return false
 	}
@@ -150,3 +153,76 @@ func (it *Interp) Abort(reason string) { panic(&abort{reason}) }
 
 // LoadAgg returns the content of a cell as an aggregate value (a by-value argument).
 func (it *Interp) LoadAgg(c *Cell) Value { return Agg{it.snapshot(c)} }
+
+
+// exclusiveSelect: t is a table look-up Σ_j [D = c_j]·v_j - every monomial carries an equality test of one and the same
+// term D with a constant, the constants are pairwise different (so at most one monomial is non-zero), coefficients are
+// non-negative and every v_j lies in [0, m).
+func exclusiveSelect(t *Term, m *big.Int) bool {
+	if len(t.mons) < 2 {
+		return false
+	}
+	type ent struct {
+		k   string
+		hi  *big.Int
+		key string
+	}
+	byConst := map[string]*big.Int{} // selector constant -> largest value selected under it
+	rest := ""
+	for _, mo := range t.mons {
+		if mo.c.Sign() < 0 {
+			return false
+		}
+		var sel *PAtom
+		for _, p := range mo.preds {
+			if p.Kind == PEQZ {
+				sel = p
+			}
+		}
+		if sel == nil {
+			return false
+		}
+		k := new(big.Int)
+		r := TInt(0)
+		for _, am := range sel.A.mons {
+			if am.atom == nil && len(am.preds) == 0 {
+				k = am.c
+			}
+		}
+		r = sel.A.Sub(TConst(k))
+		// normalise the sign of the non-constant part so that c - D and D - c give the same key
+		neg := false
+		for _, am := range r.sortedMons() {
+			neg = am.c.Sign() < 0
+			break
+		}
+		if neg {
+			r = r.Scale(big.NewInt(-1))
+			k = new(big.Int).Neg(k)
+		}
+		if rest == "" {
+			rest = r.Key()
+		} else if rest != r.Key() {
+			return false
+		}
+		hi := new(big.Int).Set(mo.c)
+		if mo.atom != nil {
+			if mo.atom.Lo.Sign() < 0 {
+				return false
+			}
+			hi.Mul(hi, mo.atom.Hi)
+		}
+		ks := k.String()
+		if old, ok := byConst[ks]; ok {
+			// several monomials under the same selector value add up
+			hi.Add(hi, old)
+		}
+		byConst[ks] = hi
+	}
+	for _, hi := range byConst {
+		if hi.Cmp(m) >= 0 {
+			return false
+		}
+	}
+	return true
+}
